@@ -279,8 +279,17 @@ class Folder:
                     return a < b
                 if isinstance(op, ast.Gt):
                     return a > b
+                if isinstance(op, ast.LtE):
+                    return a <= b
+                if isinstance(op, ast.GtE):
+                    return a >= b
             except Exception:
                 return UNKNOWN
+        if isinstance(node, ast.IfExp):
+            t = f(node.test)
+            if t is UNKNOWN:
+                return UNKNOWN
+            return f(node.body if t else node.orelse)
         return UNKNOWN
 
     @staticmethod
